@@ -161,9 +161,11 @@ class FmtInterp(Interp):
                 v = self.lookup(name)
                 if v is None:
                     raise Unknown("format capture %s" % name)
-            r = self.render(v, spec)
-            mw = re.match(r"^(0)?(\d+)$", spec or "")
-            return r
+            if spec in ("x", "X") and isinstance(v, int) and not isinstance(v, bool):
+                return ("%x" if spec == "x" else "%X") % v
+            if spec not in ("", "?"):
+                raise Unknown("format spec {:%s}" % spec)
+            return self.render(v, spec)
         return FMT_RE.sub(sub, fs)
 
     def e_macro(self, e):
@@ -186,10 +188,17 @@ class FmtInterp(Interp):
             return PyStr(self.format(e, vals))
         return super().e_macro(e)
 
+    def e_cast(self, e):
+        v = self.eval(e["e"])
+        c = S(v)
+        if c is not None and len(c) == 1 and e["ty"] in ("u32", "u64", "usize", "i32", "i64"):
+            return ord(c)
+        return super().e_cast(e)
+
     def e_call(self, e):
         f = e["f"]
         fname = f.get("p") if f["k"] == "path" else None
-        if fname == "String::new":
+        if fname in ("String::new", "String::with_capacity"):
             return PyStr("")
         if fname in ("String::from", "Cow::Borrowed", "Cow::Owned") and e["a"]:
             v = self.eval(e["a"][0])
@@ -198,6 +207,8 @@ class FmtInterp(Interp):
         if fname in ("core::str::from_utf8", "std::str::from_utf8", "str::from_utf8") and e["a"]:
             v = self.eval(e["a"][0])
             return ("Ok", v) if S(v) is not None else OPAQUE
+        if fname and fname.startswith("crate::") and fname.split("::")[-1] in self.w.free:
+            fname = fname.split("::")[-1]
         if fname and fname in self.w.free:
             fi = self.w.free[fname]
             return self.call_fn(fi, None, [self.eval(a) for a in e["a"]])
@@ -257,6 +268,9 @@ class FmtInterp(Interp):
                 return {"ends_with": s.endswith(a0), "starts_with": s.startswith(a0), "contains": a0 in s}[m]
             if m == "is_empty":
                 return s == ""
+            if m == "is_control" and len(s) == 1:
+                import unicodedata
+                return unicodedata.category(s) == "Cc"
             if m == "len":
                 return len(s.encode())
             if m in ("as_str", "as_ref", "clone", "to_owned", "borrow", "into", "as_bytes"):
